@@ -27,6 +27,8 @@ pub fn rule(id: &str) -> String {
         "C17" => "evaluation = one pair of play-phase states built with the public constructors that differ in exactly one hashed feature (content of one square among 13 contents, side, step, push/pull status among 641, or one piece relocated), whose transposition hashes must differ; the feature space is enumerated completely for every generated context (board, side, step, status); non-trivial = every such pair (all are distinct by construction; counted per distinct context x feature kind x feature value)".into(),
         "C18" => "evaluation = one generated concurrent program (T threads sharing Arc<GameState>, each expanding / cloning / dropping / querying, with states handed across threads) whose per-thread transcripts are compared with the sequential run of the same program; plus the compile-time probe of Send + Sync for the public types; non-trivial = program with >= 2 threads expanding the same state and >= 1 state handed across threads".into(),
         "C20" => "evaluation = one long capture-free game played through offered actions in a child process on a default-size thread, followed by clone / queries / one more action / drop of the clone / drop of the original, each acknowledged by a progress line; oracle = child exits 0 with all progress lines (a stack overflow is a fatal signal); non-trivial = history length >= 10000 as reported by the child; distinct by (seed, N, policy, profile)".into(),
+        "C04" | "C05" | "C06" | "C07" | "C19" => format!("{}; states include history-injected forks (a played mid-turn or turn-start state whose repetition history has been extended through the public constructors so that turn-ending actions become third occurrences), counted like any other state", registry::rule(id)),
+        "C01" | "C12" => format!("{}; states include play states rebuilt through GameState::new / PlayPhase::new", registry::rule(id)),
         _ => registry::rule(id).to_string(),
     }
 }
